@@ -1,6 +1,8 @@
 package main
 
 import (
+	"runtime/debug"
+	"os"
 	"regexp"
 	"fmt"
 	"go/ast"
@@ -425,6 +427,12 @@ func (e *SpecEnv) evalIdent(x *ast.Ident) Term {
 	}
 	if d, ok := vc.p.con.Defines[x.Name]; ok && len(d.Params) == 0 {
 		return e.expandDefine(d, nil)
+	}
+	if os.Getenv("GOVC_DEBUG_IDENT") != "" {
+		debug.PrintStack()
+		for o := range e.st.vars {
+			fmt.Fprintln(os.Stderr, "VAR", o.Name(), o.Pos())
+		}
 	}
 	vc.specFail(x, "unknown identifier %s", x.Name)
 	return Term{}
